@@ -74,3 +74,11 @@ Fixpoint for_down_ret {S R : Type} (n : nat) (st : S) (body : Z -> S -> outcome 
   | S n' => do c <- body (Z.of_nat n') st ;
             match c with Cont st' => for_down_ret n' st' body | Ret r => Val (Ret r) end
   end.
+
+(* `xs.iter().position(|&x| p)` *)
+Fixpoint iter_position_from (p : Z -> bool) (l : list Z) (n : Z) : option Z :=
+  match l with
+  | [] => None
+  | x :: t => if p x then Some n else iter_position_from p t (n + 1)
+  end.
+Definition iter_position (p : Z -> bool) (l : list Z) : option Z := iter_position_from p l 0.
